@@ -34,6 +34,12 @@ import (
 //   answer: one item per op, joined by ';':
 //       <bytes hex | panic | err>/<A if the wrapped bucket's Attributes was called, else ->/
 //       <GetRange calls on the wrapped bucket: start+len,…>/<stored subrange keys: start-end,…>
+//   cb.mix <object hex> <S> <maxSub> <p> <maxGet> <op>(;<op>)*
+//       the same with every verb; the bucket holds the object "obj" and "zdir/file", not "nope"
+//       op := r… as above | g<mode>,<pat2> Get(obj)  mode := f (read to EOF) | x (read exactly size bytes) | h<n> (read n bytes, close)
+//           | G<pat2> Get(nope) | e<pat1> Exists(obj) | E<pat1> Exists(nope) | a<pat1> Attributes(obj)
+//           | A<pat1> Attributes(nope) | i<pat1> Iter("")
+//       answer per op (other than r): <bytes hex | notfound | true | false | size:<n> | names:obj,zdir/>/<calls on the wrapped bucket joined by +, or ->
 
 func init() {
 	props = append(props, &hlib.Prop{ID: "C14", Gen: genC14, Exec: execC14})
@@ -62,6 +68,21 @@ func (b *logBucket) GetRange(ctx context.Context, name string, off, length int64
 func (b *logBucket) Attributes(ctx context.Context, name string) (objstore.ObjectAttributes, error) {
 	b.log("A")
 	return b.InMemBucket.Attributes(ctx, name)
+}
+
+func (b *logBucket) Get(ctx context.Context, name string) (io.ReadCloser, error) {
+	b.log("Get")
+	return b.InMemBucket.Get(ctx, name)
+}
+
+func (b *logBucket) Exists(ctx context.Context, name string) (bool, error) {
+	b.log("Exists")
+	return b.InMemBucket.Exists(ctx, name)
+}
+
+func (b *logBucket) Iter(ctx context.Context, dir string, f func(string) error, options ...objstore.IterOption) error {
+	b.log("Iter")
+	return b.InMemBucket.Iter(ctx, dir, f, options...)
 }
 
 // lossyCache keeps everything that is stored, but each Fetch call is told by a pattern which of
@@ -96,7 +117,7 @@ func (c *lossyCache) Fetch(_ context.Context, keys []string) map[string][]byte {
 		switch pat[i%len(pat)] {
 		case '0':
 			if v, ok := c.data[k]; ok {
-				out[k] = append([]byte(nil), v...)
+				out[k] = append([]byte{}, v...) // an empty value is still a hit
 			}
 		case '2':
 			delete(c.data, k)
@@ -105,25 +126,57 @@ func (c *lossyCache) Fetch(_ context.Context, keys []string) map[string][]byte {
 	return out
 }
 
-type c14Read struct {
-	off, length     int64
-	attrPat, subPat string
+type c14Op struct {
+	kind        byte // r g G e E a A i
+	off, length int64
+	mode        string // g: f | x | h<n>
+	pats        []string
 }
 
-func parseC14Op(s string) (c14Read, bool) {
-	if !strings.HasPrefix(s, "r") {
-		return c14Read{}, false
+func okPat(p string) bool { return p != "" && strings.Trim(p, "012") == "" }
+
+func parseC14Op(s string) (c14Op, bool) {
+	if s == "" {
+		return c14Op{}, false
 	}
-	p := strings.Split(s[1:], ",")
-	if len(p) != 4 || p[2] == "" || p[3] == "" || strings.Trim(p[2], "012") != "" || strings.Trim(p[3], "012") != "" {
-		return c14Read{}, false
+	op := c14Op{kind: s[0]}
+	rest := s[1:]
+	switch op.kind {
+	case 'r':
+		p := strings.Split(rest, ",")
+		if len(p) != 4 || !okPat(p[2]) || !okPat(p[3]) {
+			return op, false
+		}
+		o, err1 := strconv.ParseInt(p[0], 10, 64)
+		l, err2 := strconv.ParseInt(p[1], 10, 64)
+		if err1 != nil || err2 != nil || o < 0 || l <= 0 {
+			return op, false
+		}
+		op.off, op.length, op.pats = o, l, []string{p[2], p[3]}
+		return op, true
+	case 'g':
+		p := strings.Split(rest, ",")
+		if len(p) != 2 || !okPat(p[1]) {
+			return op, false
+		}
+		if p[0] != "f" && p[0] != "x" {
+			if !strings.HasPrefix(p[0], "h") {
+				return op, false
+			}
+			if _, err := strconv.Atoi(p[0][1:]); err != nil {
+				return op, false
+			}
+		}
+		op.mode, op.pats = p[0], []string{p[1]}
+		return op, true
+	case 'G', 'e', 'E', 'a', 'A', 'i':
+		if !okPat(rest) {
+			return op, false
+		}
+		op.mode, op.pats = "f", []string{rest}
+		return op, true
 	}
-	o, err1 := strconv.ParseInt(p[0], 10, 64)
-	l, err2 := strconv.ParseInt(p[1], 10, 64)
-	if err1 != nil || err2 != nil || o < 0 || l <= 0 {
-		return c14Read{}, false
-	}
-	return c14Read{o, l, p[2], p[3]}, true
+	return op, false
 }
 
 // readAllP reads r to EOF with a buffer of p bytes.
@@ -220,8 +273,21 @@ func c14Child(_ []string) {
 	}
 }
 
+const c14Missing = "nope"
+
 func execC14InProc(violation func(class, what string), tok []string) string {
-	if len(tok) != 6 || tok[0] != "cb.hist" {
+	var maxGet int
+	var opsTok string
+	switch {
+	case len(tok) == 6 && tok[0] == "cb.hist":
+		opsTok = tok[5]
+	case len(tok) == 7 && tok[0] == "cb.mix":
+		var err error
+		if maxGet, err = strconv.Atoi(tok[5]); err != nil || maxGet < 0 {
+			return "bad-op"
+		}
+		opsTok = tok[6]
+	default:
 		return "bad-op"
 	}
 	obj, err := hlib.UnHex(tok[1])
@@ -231,8 +297,8 @@ func execC14InProc(violation func(class, what string), tok []string) string {
 	if err != nil || err1 != nil || err2 != nil || err3 != nil || S <= 0 || p <= 0 || maxSub < 0 {
 		return "bad-op"
 	}
-	var ops []c14Read
-	for _, s := range strings.Split(tok[5], ";") {
+	var ops []c14Op
+	for _, s := range strings.Split(opsTok, ";") {
 		op, ok := parseC14Op(s)
 		if !ok {
 			return "bad-op"
@@ -244,10 +310,18 @@ func execC14InProc(violation func(class, what string), tok []string) string {
 	if err := inmem.Upload(ctx, c14Obj, bytes.NewReader(obj)); err != nil {
 		return "bad-op"
 	}
+	if err := inmem.Upload(ctx, "zdir/file", bytes.NewReader([]byte("x"))); err != nil {
+		return "bad-op"
+	}
 	lb := &logBucket{InMemBucket: inmem}
 	lc := &lossyCache{data: map[string][]byte{}}
+	all := func(string) bool { return true }
 	cfg := thanoscache.NewCachingBucketConfig()
-	cfg.CacheGetRange("verif", lc, func(string) bool { return true }, S, time.Hour, time.Hour, maxSub)
+	cfg.CacheGetRange("verif", lc, all, S, time.Hour, time.Hour, maxSub)
+	cfg.CacheGet("verif", lc, all, maxGet, time.Hour, time.Hour, time.Hour)
+	cfg.CacheExists("verif", lc, all, time.Hour, time.Hour)
+	cfg.CacheAttributes("verif", lc, all, time.Hour)
+	cfg.CacheIter("verif", lc, all, time.Hour, storecache.JSONIterCodec{}, "h")
 	cb, err := storecache.NewCachingBucket(lb, cfg, log.NewNopLogger(), nil)
 	if err != nil {
 		return "bad-op"
@@ -255,9 +329,14 @@ func execC14InProc(violation func(class, what string), tok []string) string {
 	size := int64(len(obj))
 	var answers []string
 	for _, op := range ops {
-		lc.pats = []string{op.attrPat, op.subPat}
+		lc.pats = append([]string(nil), op.pats...)
 		lc.stores = nil
 		lb.calls = nil
+		if op.kind != 'r' {
+			answers = append(answers, c14Verb(violation, ctx, cb, inmem, lb, op, obj, p))
+			c14CheckCache(violation, lc, obj)
+			continue
+		}
 		out, perr := func() (out string, perr any) {
 			defer func() {
 				if r := recover(); r != nil {
@@ -294,14 +373,7 @@ func execC14InProc(violation func(class, what string), tok []string) string {
 			violation(class, fmt.Sprintf("GetRange(off=%d, len=%d) on a %d-byte object, subrange size %d: caching bucket %s (%v), wrapped bucket %s",
 				op.off, op.length, size, S, short(out), perr, short(want)))
 		}
-		// the cache holds only true slices of the object, under their exact keys
-		for k, v := range lc.data {
-			if a, b, ok := subrangeKey(k); ok {
-				if a < 0 || b > size || a >= b || !bytes.Equal(v, obj[a:b]) {
-					violation("cache-poisoned", fmt.Sprintf("key %s holds %d bytes that are not obj[%d:%d]", k, len(v), a, b))
-				}
-			}
-		}
+		c14CheckCache(violation, lc, obj)
 		attr, reads := "-", []string{}
 		type pr struct{ a, b int64 }
 		var rs []pr
@@ -336,6 +408,115 @@ func execC14InProc(violation func(class, what string), tok []string) string {
 		answers = append(answers, fmt.Sprintf("%s/%s/%s/%s", out, attr, hlib.Join(reads, ","), hlib.Join(stores, ",")))
 	}
 	return strings.Join(answers, ";")
+}
+
+// c14CheckCache: the cache holds only what the wrapped bucket says, under exact keys.
+func c14CheckCache(violation func(class, what string), lc *lossyCache, obj []byte) {
+	size := int64(len(obj))
+	for k, v := range lc.data {
+		switch {
+		case strings.HasPrefix(k, "subrange:"):
+			if a, b, ok := subrangeKey(k); ok {
+				if a < 0 || b > size || a >= b || !bytes.Equal(v, obj[a:b]) {
+					violation("cache-poisoned", fmt.Sprintf("key %s holds %d bytes that are not obj[%d:%d]", k, len(v), a, b))
+				}
+			}
+		case k == "content:"+c14Obj:
+			if !bytes.Equal(v, obj) {
+				violation("cache-poisoned", fmt.Sprintf("key %s holds %d bytes, the object has %d", k, len(v), len(obj)))
+			}
+		case k == "exists:"+c14Obj && string(v) != "true", k == "exists:"+c14Missing && string(v) != "false", k == "content:"+c14Missing:
+			violation("cache-poisoned", fmt.Sprintf("key %s = %q", k, v))
+		}
+	}
+}
+
+// c14Verb runs one non-range op on the caching bucket and on the wrapped bucket and compares.
+func c14Verb(violation func(class, what string), ctx context.Context, cb *storecache.CachingBucket, inmem *objstore.InMemBucket, lb *logBucket, op c14Op, obj []byte, p int) string {
+	name := c14Obj
+	if op.kind == 'G' || op.kind == 'E' || op.kind == 'A' {
+		name = c14Missing
+	}
+	consume := func(r io.ReadCloser) (string, error) {
+		defer r.Close()
+		switch {
+		case op.mode == "f":
+			b, err := readAllP(r, p, len(obj)+10)
+			return hlib.Hex(b), err
+		case op.mode == "x":
+			b := make([]byte, len(obj))
+			_, err := io.ReadFull(r, b)
+			return hlib.Hex(b), err
+		default:
+			n, _ := strconv.Atoi(op.mode[1:])
+			if n > len(obj) {
+				n = len(obj)
+			}
+			b := make([]byte, n)
+			_, err := io.ReadFull(r, b)
+			return hlib.Hex(b), err
+		}
+	}
+	run := func(b objstore.Bucket, isNotFound func(error) bool) (ans string) {
+		defer func() {
+			if r := recover(); r != nil {
+				ans = "panic"
+			}
+		}()
+		switch op.kind {
+		case 'g', 'G':
+			r, err := b.Get(ctx, name)
+			if err != nil {
+				if isNotFound(err) {
+					return "notfound"
+				}
+				return "err"
+			}
+			s, err := consume(r)
+			if err != nil {
+				return "err"
+			}
+			return s
+		case 'e', 'E':
+			ok, err := b.Exists(ctx, name)
+			if err != nil {
+				return "err"
+			}
+			return strconv.FormatBool(ok)
+		case 'a', 'A':
+			at, err := b.Attributes(ctx, name)
+			if err != nil {
+				if isNotFound(err) {
+					return "notfound"
+				}
+				return "err"
+			}
+			return fmt.Sprintf("size:%d@%d", at.Size, at.LastModified.UnixNano())
+		default:
+			var names []string
+			if err := b.Iter(ctx, "", func(n string) error { names = append(names, n); return nil }); err != nil {
+				return "err"
+			}
+			return "names:" + strings.Join(names, ",")
+		}
+	}
+	got := run(cb, cb.IsObjNotFoundErr)
+	calls := append([]string(nil), lb.calls...)
+	want := run(inmem, inmem.IsObjNotFoundErr)
+	if got != want {
+		violation(map[byte]string{'g': "get", 'G': "get", 'e': "exists", 'E': "exists", 'a': "attributes", 'A': "attributes", 'i': "iter"}[op.kind]+"-not-transparent",
+			fmt.Sprintf("%c on %q: caching bucket %s, wrapped bucket %s", op.kind, name, short(got), short(want)))
+	}
+	// canonical: the modification time is compared above, not printed
+	if i := strings.Index(got, "@"); i > 0 && strings.HasPrefix(got, "size:") {
+		got = got[:i]
+	}
+	for i, c := range calls {
+		if c == "A" {
+			calls[i] = "Attributes"
+		}
+	}
+	return got + "/" + hlib.Join(calls, "+")
 }
 
 func short(s string) string {
@@ -441,5 +622,70 @@ func genC14(c *hlib.Ctx) {
 		}
 		c.Count(fmt.Sprintf("history-len:%s", bucket(nops)))
 		c.Do(fmt.Sprintf("cb.hist %s %d %d %d %s", hlib.Hex(obj), S, maxSub, p, strings.Join(ops, ";")), true)
+	}
+	// every verb: Get (whole / partial / exact reads, size limit), Exists, Attributes, Iter, range
+	// reads, on a present and on an absent object
+	pat := func(n int) string {
+		b := make([]byte, n)
+		for i := range b {
+			b[i] = "0000112"[r.Intn(7)]
+		}
+		return string(b)
+	}
+	for round := 0; round < c.N(300, 8000); round++ {
+		S := []int{1, 3, 16}[r.Intn(3)]
+		size := r.Intn(4*S + 3)
+		if r.Chance(1, 10) {
+			size = 0
+		}
+		obj := r.Bytes(size)
+		maxGet := []int{0, size - 1, size, size + 1, 1000}[r.Intn(5)]
+		if maxGet < 0 {
+			maxGet = 0
+		}
+		switch {
+		case maxGet < size:
+			c.Count("mix:object-larger-than-MaxCacheableSize")
+		default:
+			c.Count("mix:object-cacheable")
+		}
+		p := []int{1, 3, 512}[r.Intn(3)]
+		nops := r.Range(2, 25)
+		var ops []string
+		for i := 0; i < nops; i++ {
+			var op string
+			switch r.Intn(12) {
+			case 0, 1:
+				op = "gf," + pat(2)
+				c.Count("mix:get-full")
+			case 2:
+				op = fmt.Sprintf("gh%d,%s", r.Intn(size+1), pat(2))
+				c.Count("mix:get-partial")
+			case 3:
+				op = "gx," + pat(2)
+				c.Count("mix:get-exact-no-eof")
+			case 4:
+				op = "G" + pat(2)
+				c.Count("mix:get-absent")
+			case 5:
+				op = "e" + pat(1)
+			case 6:
+				op = "E" + pat(1)
+				c.Count("mix:exists-absent")
+			case 7:
+				op = "a" + pat(1)
+			case 8:
+				op = "A" + pat(1)
+			case 9:
+				op = "i" + pat(1)
+				c.Count("mix:iter")
+			default:
+				off := r.Intn(size + 2)
+				op = fmt.Sprintf("r%d,%d,%s,%s", off, r.Range(1, size+2), pat(1), genPat(c))
+				c.Count("mix:getrange")
+			}
+			ops = append(ops, op)
+		}
+		c.Do(fmt.Sprintf("cb.mix %s %d %d %d %d %s", hlib.Hex(obj), S, r.Intn(3), p, maxGet, strings.Join(ops, ";")), true)
 	}
 }
